@@ -95,9 +95,19 @@ pub fn run_c10(case: &Case) -> Outcome {
         // default brancher across the creation of variables leaves the new variables unfixed, which is
         // a misuse and not a defect), so branchers are recreated after variables were added.
         let reuse_default_brancher = false;
+        let mut after_interrupt = false;
         for _ in 0..nsteps {
-            let op = r.gen_range(0..9);
-            let fire_at: Option<u64> = if r.gen_range(0..4) == 0 { Some(r.gen_range(0..6)) } else { None };
+            // right after an interrupted solve, variable creation is tried more often (the solver is left
+            // in whatever state the interruption found it in)
+            let op = if after_interrupt && r.gen_bool(0.4) { 0 } else { r.gen_range(0..9) };
+            after_interrupt = false;
+            // a quarter of the solves is interrupted: half of those at poll 0-5, the others at a poll
+            // drawn log-uniformly up to ~360 (so that interruptions also land after conflicts)
+            let fire_at: Option<u64> = if r.gen_range(0..4) == 0 {
+                Some(if r.gen_bool(0.5) { r.gen_range(0..6) } else { 2f64.powf(r.gen_range(0.0..8.5)) as u64 })
+            } else {
+                None
+            };
             let mk_term = |m: &Model| match fire_at {
                 None => Term::Never(Budget::for_model(m)),
                 Some(k) => Term::At(StopAt::new(Some(k), 5_000_000)),
@@ -173,6 +183,7 @@ pub fn run_c10(case: &Case) -> Outcome {
                                 return out;
                             }
                             out.cover("interrupted");
+                            after_interrupt = true;
                         }
                     }
                 }
@@ -243,6 +254,7 @@ pub fn run_c10(case: &Case) -> Outcome {
                                 return out;
                             }
                             out.cover("interrupted");
+                            after_interrupt = true;
                         }
                     }
                 }
@@ -302,6 +314,7 @@ pub fn run_c10(case: &Case) -> Outcome {
                             return out;
                         }
                         out.cover("interrupted");
+                            after_interrupt = true;
                     }
                 }
                 _ => {
@@ -397,6 +410,7 @@ pub fn run_c10(case: &Case) -> Outcome {
                                 return out;
                             }
                             out.cover("interrupted");
+                            after_interrupt = true;
                             match read_solution(&sol, &xs) {
                                 Ok(a) if up.contains(&a) => {
                                     let v = obj.val(&a);
@@ -428,6 +442,7 @@ pub fn run_c10(case: &Case) -> Outcome {
                                 return out;
                             }
                             out.cover("interrupted");
+                            after_interrupt = true;
                             if let Some(b) = best_seen {
                                 sh.cuts.push((obj.clone(), maximise, b));
                             }
@@ -492,6 +507,8 @@ pub fn run_c11(case: &Case) -> Outcome {
     out.cover(format!("entry:{entry_name}"));
     out.config = Json::obj([("solver", cfg.to_json()), ("entry", Json::str(entry_name))]);
 
+    // a third of the satisfy cases create a new variable between the interruption and the second call
+    let extend_after_interrupt = entry == 0 && case.sub % 3 == 0;
     // one run: interrupted at `at` (None = never), then resumed without interruption
     let one = |at: Option<u64>| -> Result<(Outcome, RunResult), String> {
         guard(|| {
@@ -524,6 +541,15 @@ pub fn run_c11(case: &Case) -> Outcome {
                                     o.fail("budget-exhausted", format!("{ctx}: Unknown without a firing termination condition"));
                                     break;
                                 }
+                                if extend_after_interrupt {
+                                    // the model is extended before the solver is asked again: a fresh
+                                    // variable with a hole in its domain (its value is free)
+                                    let extra = b.solver.new_sparse_integer(vec![0, 2]);
+                                    let mut xs_all = b.xs.clone();
+                                    xs_all.push(X::I(extra));
+                                    brancher = make_brancher(&cfg.br, &b.solver, &xs_all);
+                                    o.count("model_extended_after_interrupt", 1);
+                                }
                             }
                         }
                     }
@@ -550,9 +576,12 @@ pub fn run_c11(case: &Case) -> Outcome {
                                     break;
                                 }
                             },
-                            IteratedSolution::Finished | IteratedSolution::Unsatisfiable => {
+                            end @ (IteratedSolution::Finished | IteratedSolution::Unsatisfiable) => {
                                 if let Some(a) = sols.difference(&seen).next() {
                                     o.fail("solution-missing-after-interruption", format!("{ctx}: iteration ended but {a:?} was never yielded ({} of {})", seen.len(), sols.len()));
+                                } else if matches!(end, IteratedSolution::Unsatisfiable) && !seen.is_empty() {
+                                    // (this iterator has yielded solutions: the end of the iteration is `Finished`)
+                                    o.fail("unsatisfiable-after-solutions", format!("{ctx}: the iterator reported Unsatisfiable after it had yielded {} solutions", seen.len()));
                                 }
                                 break;
                             }
@@ -724,7 +753,144 @@ pub fn mag_class(m: &Model) -> Vec<String> {
     cl.into_iter().collect()
 }
 
+/// C16 family (b): one linear inequality over 2-3 interval variables of which at least one spans (nearly)
+/// the whole 32-bit range. The ground truth is analytic (the terms are independent, so the hull of every
+/// variable follows from the minima of the other terms, computed in i128): post-time verdict, root bounds,
+/// and two assumption solves per variable (the extreme value of its hull is attainable, the value just beyond
+/// it is not).
+pub fn run_c16_wide(case: &Case) -> Outcome {
+    use pumpkin_solver::constraints;
+    use pumpkin_solver::predicate;
+    use pumpkin_solver::results::ProblemSolution;
+    use pumpkin_solver::results::SatisfactionResultUnderAssumptions as SRA;
+    use pumpkin_solver::variables::TransformableVariable;
+    let w = case.extra.get("wide");
+    let vars: Vec<(i64, i64)> = w.get("vars").as_arr().iter().map(|p| (p.as_arr()[0].as_i64(), p.as_arr()[1].as_i64())).collect();
+    let coefs: Vec<i64> = w.get("coefs").as_arr().iter().map(|c| c.as_i64()).collect();
+    let rhs = w.get("rhs").as_i64();
+    let mut out = Outcome::default();
+    out.class("kind.lin_le");
+    out.class("mag.wide_domain");
+    out.class("mag.regime.wide");
+    let mut r = SmallRng::seed_from_u64(case.sub);
+    let cfg = Config { opts: OptSpec::default_with_seed(r.gen()), br: BrSpec::Default };
+    out.config = cfg.to_json();
+    let n = vars.len();
+    // exact ground truth
+    let tmin: Vec<i128> = (0..n).map(|i| (coefs[i] as i128 * vars[i].0 as i128).min(coefs[i] as i128 * vars[i].1 as i128)).collect();
+    let feasible = tmin.iter().sum::<i128>() <= rhs as i128;
+    let div_floor = |a: i128, b: i128| -> i128 { let q = a / b; if a % b != 0 && ((a < 0) != (b < 0)) { q - 1 } else { q } };
+    let div_ceil = |a: i128, b: i128| -> i128 { -div_floor(-a, b) };
+    let hull: Vec<(i128, i128)> = (0..n)
+        .map(|i| {
+            let slack = rhs as i128 - (tmin.iter().sum::<i128>() - tmin[i]);
+            if coefs[i] > 0 {
+                (vars[i].0 as i128, (vars[i].1 as i128).min(div_floor(slack, coefs[i] as i128)))
+            } else {
+                ((vars[i].0 as i128).max(div_ceil(slack, coefs[i] as i128)), vars[i].1 as i128)
+            }
+        })
+        .collect();
+    let desc = format!(
+        "{} <= {rhs} with {}",
+        (0..n).map(|i| format!("{}*x{i}", coefs[i])).collect::<Vec<_>>().join(" + "),
+        (0..n).map(|i| format!("x{i} in [{},{}]", vars[i].0, vars[i].1)).collect::<Vec<_>>().join(", ")
+    );
+    let res = guard(|| {
+        let mut o = Outcome::default();
+        let mut solver = Solver::with_options(cfg.opts.to_options());
+        let xs: Vec<_> = vars.iter().map(|(lo, hi)| solver.new_bounded_integer(*lo as i32, *hi as i32)).collect();
+        let terms: Vec<_> = (0..n).map(|i| xs[i].scaled(coefs[i] as i32)).collect();
+        let posted = solver.add_constraint(constraints::less_than_or_equals(terms, rhs as i32)).post();
+        if posted.is_err() {
+            o.count("post_errors", 1);
+            if feasible {
+                o.fail("spurious-infeasibility", format!("posting {desc} returned an infeasibility error but the constraint has solutions"));
+            }
+            return o;
+        }
+        if !feasible {
+            // the infeasibility may also be found by the first solve
+            let mut brancher = solver.default_brancher();
+            let mut t = StopAt::new(None, 200_000);
+            if !matches!(solver.satisfy(&mut brancher, &mut t), SatisfactionResult::Unsatisfiable) {
+                o.fail("solution-invented", format!("{desc} has no solution but the solver did not report Unsatisfiable"));
+            }
+            return o;
+        }
+        for i in 0..n {
+            let (lb, ub) = (solver.lower_bound(&xs[i]) as i128, solver.upper_bound(&xs[i]) as i128);
+            if lb > hull[i].0 || ub < hull[i].1 {
+                o.fail("bound-excludes-solution", format!("after posting {desc}: x{i} in [{lb},{ub}] but its solutions span [{},{}]", hull[i].0, hull[i].1));
+                return o;
+            }
+            if lb < vars[i].0 as i128 || ub > vars[i].1 as i128 {
+                o.fail("bound-outside-domain", format!("after posting {desc}: x{i} in [{lb},{ub}]"));
+                return o;
+            }
+            o.count("bounds_checked", 1);
+        }
+        // the ends of every hull are attainable, the values just beyond are not
+        let mut brancher = solver.default_brancher();
+        for i in 0..n {
+            for upper in [false, true] {
+                let end = if upper { hull[i].1 } else { hull[i].0 } as i32;
+                let x = xs[i];
+                let attain = if upper { predicate!(x >= end) } else { predicate!(x <= end) };
+                let mut t = StopAt::new(None, 200_000);
+                match solver.satisfy_under_assumptions(&mut brancher, &mut t, &[attain]) {
+                    SRA::Satisfiable(sol) => {
+                        let vals: Vec<i128> = xs.iter().map(|x| sol.get_integer_value(*x) as i128).collect();
+                        let lhs: i128 = (0..n).map(|k| coefs[k] as i128 * vals[k]).sum();
+                        if lhs > rhs as i128 || (0..n).any(|k| vals[k] < vars[k].0 as i128 || vals[k] > vars[k].1 as i128) || vals[i] != end as i128 {
+                            o.fail("solution-invented", format!("{desc} under {attain}: reported {vals:?}"));
+                            return o;
+                        }
+                    }
+                    SRA::UnsatisfiableUnderAssumptions(_) | SRA::Unsatisfiable => {
+                        o.fail("solution-lost", format!("{desc}: x{i} = {end} is attainable but the solver reports no solution under {attain}"));
+                        return o;
+                    }
+                    SRA::Unknown => {
+                        o.fail("budget-exhausted", format!("{desc} under {attain}: no answer within 200000 polls"));
+                        return o;
+                    }
+                }
+                let beyond = if upper { end as i128 + 1 } else { end as i128 - 1 };
+                if beyond < vars[i].0 as i128 || beyond > vars[i].1 as i128 {
+                    continue;
+                }
+                let b = beyond as i32;
+                let exceed = if upper { predicate!(x >= b) } else { predicate!(x <= b) };
+                let mut t = StopAt::new(None, 200_000);
+                match solver.satisfy_under_assumptions(&mut brancher, &mut t, &[exceed]) {
+                    SRA::Satisfiable(sol) => {
+                        let vals: Vec<i128> = xs.iter().map(|x| sol.get_integer_value(*x) as i128).collect();
+                        o.fail("solution-invented", format!("{desc} under {exceed}: reported {vals:?} although x{i} cannot pass {end}"));
+                        return o;
+                    }
+                    SRA::UnsatisfiableUnderAssumptions(_) | SRA::Unsatisfiable => {}
+                    SRA::Unknown => {
+                        o.fail("budget-exhausted", format!("{desc} under {exceed}: no answer within 200000 polls"));
+                        return o;
+                    }
+                }
+                o.count("hull_ends_checked", 1);
+            }
+        }
+        o
+    });
+    merge(&mut out, res);
+    out.nontrivial = true;
+    out.cover("family:wide-domain-linear");
+    out.count(if feasible { "models_sat" } else { "models_unsat" }, 1);
+    out
+}
+
 pub fn run_c16(case: &Case) -> Outcome {
+    if !matches!(case.extra.get("wide"), Json::Null) {
+        return run_c16_wide(case);
+    }
     let m = &case.model;
     let mut out = Outcome::new(m);
     out.classes.retain(|c| c.starts_with("kind.") || c.starts_with("implied.") || c.starts_with("reified.") || c.starts_with("negated.") || c.ends_with("repeated_var"));
